@@ -145,7 +145,10 @@ class NeverBreach:
 class World:
     """Controller endpoint (real Bridge) + one executor endpoint (real Executor), wired through Net."""
 
-    def __init__(self, R: int):
+    def __init__(self, R: int, same_payload: bool = False):
+        # same_payload: every data message of an endpoint has the SAME content (two purges of one dataset, two equal commands):
+        # messages are told apart by their Syn only, as the protocol does
+        self.same_payload = same_payload
         self.net = Net()
         net = self.net
         self._old = (C.get_context, C.zmq, C.time, C.max_retries_per_message, EX.callback)
@@ -228,6 +231,8 @@ class World:
         act = last[0]
         if act == "Send":
             e, i = last[1], last[2]
+            if self.same_payload:
+                i = 0
             if e == "ctrl":
                 self.b.task_sequence(TaskSequence(worker=self.w, tasks=[f"t{i}"], publish=set()))
             else:
@@ -310,8 +315,8 @@ def spec_projection(s: dict) -> dict:
     return out
 
 
-def replay(behaviour: list[tuple[str, dict]], R: int) -> dict:
-    w = World(R)
+def replay(behaviour: list[tuple[str, dict]], R: int, same_payload: bool = False) -> dict:
+    w = World(R, same_payload)
     try:
         for i, (label, s) in enumerate(behaviour[1:], start=2):
             last = s["last"]
@@ -320,6 +325,9 @@ def replay(behaviour: list[tuple[str, dict]], R: int) -> dict:
             except LookupError as e:
                 return {"steps": i - 1, "mismatch": {"step": i, "action": _js(last), "harness_error": repr(e)}}
             got, exp = w.project(), spec_projection(s)
+            if same_payload:      # contents are indistinguishable: how many were delivered is what can be compared
+                for e_ in ("ctrl", "exec"):
+                    got["delivered"][e_], exp["delivered"][e_] = len(got["delivered"][e_]), len(exp["delivered"][e_])
             # once an endpoint has raised, its own further bookkeeping (failure report, shutdown messages) is outside the model
             diffs = {}
             for f in exp:
